@@ -19,6 +19,10 @@ Shipped  translate/grammars.py walks the live objects json_parser.Top and taglan
          start of every run; the TRANSLATED grammars are run in the driver on the same documents / expressions as the
          real ones (streams json-translated-vs-real, taglang-translated-vs-real: value or error class of __call__,
          resp. Predicate.test on 32 tag sets).
+Library  (round 10) PosMarker / Context.line / Context.col are in the model (Term.mark); skip_none is a table function; the
+         module-level parsers (WS, Number, LineEnd, QuotedString, …) and EnclosedComment / OneLineComment / EmptyQuotedString
+         are leaves of the random grammars with their documented meaning written down here (CONST_TERMS); WithIndent /
+         HangingString run against the reference evaluator only; generated INI documents against iniparser.parse_doc.
 Oracle   `Ref` below: an independent recursive-descent evaluator written from the textbook PEG rules
          (functional state: a failed alternative leaves no trace; a raising action aborts the parse),
          evaluated on the same terms.  Shipped grammars: insights.parsr.examples.json_parser against
@@ -30,6 +34,7 @@ import json
 import os
 import re
 import signal
+import string as _string
 
 from harness.common import VERIF, REPO, enc, dec, run_driver
 
@@ -45,6 +50,21 @@ FUEL = "auto"     # the driver computes IV.Peg.bound rules term |input| (Props.C
 NO_MATCH = getattr(Parser, "_NO_MATCH", object())
 AnyCharCls = type(P.AnyChar)
 EOFCls = type(P.EOF)
+# classes / functions added to the check in round 10; a tree without one of them is reported through the oracle
+PosMarker = getattr(P, "PosMarker", None)
+MarkCls = getattr(P, "Mark", None)
+EnclosedComment = getattr(P, "EnclosedComment", None)
+OneLineComment = getattr(P, "OneLineComment", None)
+EmptyQuotedString = getattr(P, "EmptyQuotedString", None)
+WithIndent = getattr(P, "WithIndent", None)
+HangingString = getattr(P, "HangingString", None)
+
+
+class RMark(object):
+    """the reference evaluator's Mark: line and column (1-based) of the start position, and the value"""
+
+    def __init__(self, lineno, col, value):
+        self.lineno, self.col, self.value = lineno, col, value
 
 
 # --------------------------------------------------------------------------- values
@@ -66,6 +86,11 @@ def canon(v):
         return "[" + ";".join(canon(x) for x in v) + "]"
     if isinstance(v, dict):
         return "{" + ";".join(canon(k) + ":" + canon(x) for k, x in v.items()) + "}"
+    if isinstance(v, RMark) or (MarkCls is not None and type(v) is MarkCls):
+        ln, col = getattr(v, "lineno", None), getattr(v, "col", None)
+        if type(ln) is int and type(col) is int and hasattr(v, "value"):
+            return "O" + enc("Mark") + "(I%d;I%d;%s)" % (ln, col, canon(v.value))
+        return "?Mark(%r,%r)" % (ln, col)
     return "?" + type(v).__name__
 
 
@@ -123,6 +148,8 @@ def fn_map(spec):
                 raise ValueError("mapped function raises")
             return x
         return _tag(g, "raiseif", v)
+    if k == "skipnone":
+        return P.skip_none              # the library's own function object (identified by identity)
     raise ValueError(k)
 
 
@@ -130,6 +157,8 @@ def fn_lift(spec):
     """a function for Lift: *args; the model applies the same table entry to the list of arguments"""
     if spec[0] == "pair":
         return _tag(lambda *a: list(a), "pair")
+    if spec[0] == "skipnone":
+        return _tag(lambda *a: P.skip_none(list(a)), "skipnone")
     inner = fn_map(spec)
     return _tag(lambda *a: inner(list(a)), *inner._c19)
 
@@ -137,6 +166,12 @@ def fn_lift(spec):
 def fn_tokens(func):
     if func is getattr(Parser, "_accumulate", None):
         return ["accum"]
+    if func is getattr(P, "skip_none", None):
+        return ["skipnone"]
+    code = getattr(func, "__code__", None)
+    if (getattr(func, "__name__", "") == "<lambda>" and getattr(func, "__module__", "") == "insights.parsr" and code is not None
+            and code.co_argcount == 1 and code.co_names == ("join",) and "" in code.co_consts):
+        return ["join"]                 # EnclosedComment's  lambda x: "".join(x)
     tok = getattr(func, "_c19", None)
     if tok is None:
         # the functions of the shipped grammars (identified by identity with the live objects)
@@ -311,6 +346,24 @@ def _build(spec, fwd, pool):
         return StartTagName(build(spec[1], fwd, pool))
     if k == "etag":
         return EndTagName(build(spec[1], fwd, pool), ignore_case=spec[2])
+    if k == "pm":
+        return PosMarker(build(spec[1], fwd, pool))
+    if k == "dbg":
+        return build(spec[1], fwd, pool).debug()
+    if k == "named":
+        return build(spec[1], fwd, pool) % spec[2]
+    if k == "const":
+        return getattr(P, spec[1])
+    if k == "ecom":
+        return EnclosedComment(spec[1], spec[2])
+    if k == "olcom":
+        return OneLineComment(spec[1])
+    if k == "eqs":
+        return EmptyQuotedString(spec[1])
+    if k == "wi":
+        return WithIndent(build(spec[1], fwd, pool))
+    if k == "hs":
+        return HangingString(spec[1], spec[2] or None, spec[3]) if (spec[2] or spec[3] != 1) else HangingString(spec[1])
     raise ValueError(k)
 
 
@@ -341,7 +394,7 @@ def map_spec(spec, f):
         out[1] = [f(c) for c in spec[1]]
     elif k == "lift":
         out[2] = [f(c) for c in spec[2]]
-    elif k in ("many", "opt", "wrap", "stag", "etag"):
+    elif k in ("many", "opt", "wrap", "stag", "etag", "pm", "dbg", "named", "wi"):
         out[1] = f(spec[1])
     elif k == "map":
         out[2] = f(spec[2])
@@ -473,7 +526,53 @@ def spec_term(spec):
         return ["stag", spec_term(spec[1])]
     if k == "etag":
         return ["etag", spec_term(spec[1]), bool(spec[2])]
+    if k == "pm":
+        return ["pm", spec_term(spec[1])]
+    if k in ("dbg", "named"):           # .debug() and % name change nothing a parse returns
+        return spec_term(spec[1])
+    if k == "wi":
+        return ["wi", spec_term(spec[1])]
+    if k == "hs":
+        return ["hs", _cs(spec[1]), _cs(spec[2] or ""), spec[3]]
+    if k == "const":
+        return json.loads(json.dumps(CONST_TERMS[spec[1]]))
+    if k == "ecom":                     # Start >> AnyChar.until(End).map("".join) << End
+        return ["wrap", ["kl", ["kr", ["lit", spec[1], None, False],
+                                ["map", ["join"], ["until", ["any"], ["lit", spec[2], None, False]]]],
+                         ["lit", spec[2], None, False]]]
+    if k == "olcom":                    # Literal(s) >> Opt(AnyChar.until(InSet("\r\n")), "")
+        return ["wrap", ["kr", ["lit", spec[1], None, False], ["opt", ["until", ["any"], ["set", "\n\r"]], [""]]]]
+    if k == "eqs":                      # a quoted string that may be empty, either quote, the quote itself escapable
+        def q(c):
+            return ["kl", ["kr", ["chr", c], ["str", _cs(set(spec[1]) - set(c)), c, 0]], ["chr", c]]
+        return ["wrap", ["cho", [q("'"), q('"')]]]
     raise ValueError(k)
+
+
+def _cs(chars):
+    return "".join(sorted(set(chars)))
+
+
+def _quoted(c):
+    return ["kl", ["kr", ["chr", c], ["str", _cs(set(_string.printable) - set(c)), c, 1]], ["chr", c]]
+
+
+# the DOCUMENTED meaning of the ready-made parsers at the bottom of insights/parsr/__init__.py, written with the
+# `string` module and not read from the library: the objects are read back (walk) and must denote exactly these terms
+CONST_TERMS = {
+    "EOF": ["eof"], "AnyChar": ["any"], "EOL": ["set", "\n\r"],
+    "LineEnd": ["wrap", ["cho", [["set", "\n\r"], ["eof"]]]],
+    "EQ": ["chr", "="], "LT": ["chr", "<"], "GT": ["chr", ">"], "FS": ["chr", "/"], "LeftCurly": ["chr", "{"],
+    "RightCurly": ["chr", "}"], "LeftBracket": ["chr", "["], "RightBracket": ["chr", "]"], "LeftParen": ["chr", "("],
+    "RightParen": ["chr", ")"], "Colon": ["chr", ":"], "SemiColon": ["chr", ";"], "Comma": ["chr", ","],
+    "NonZeroDigit": ["set", "123456789"], "Digit": ["set", "0123456789"], "Digits": ["str", "0123456789", "", 1],
+    "Letter": ["set", _cs(_string.ascii_letters)], "Letters": ["str", _cs(_string.ascii_letters), "", 1],
+    "WSChar": ["set", _cs(" \t\x0b\x0c")], "WS": ["many", ["set", _cs(" \t\n\r\x0b\x0c")], 0],
+    "Number": ["lift", ["mknum"], [["opt", ["chr", "-"], [""]], ["str", "0123456789", "", 1],
+                                    ["opt", ["seq", [["chr", "."], ["str", "0123456789", "", 1]]], [None]]]],
+    "SingleQuotedString": _quoted("'"), "DoubleQuotedString": _quoted('"'),
+    "QuotedString": ["wrap", ["cho", [_quoted('"'), _quoted("'")]]],
+}
 
 
 # --------------------------------------------------------------------------- real object graph -> term
@@ -584,11 +683,25 @@ def walk(p, fwd_ids, path=""):
         return ["stag", sub(0)]
     if t is EndTagName:
         return ["etag", sub(0), bool(_attr(p, "ignore_case", None, path))]
+    if t is PosMarker:
+        return ["pm", sub(0)]
+    if t is WithIndent:
+        return ["wi", sub(0)]
+    if t is HangingString:
+        line = sub(0)                    # one line of the value: String(chars, echars, min_length) << (EOL | EOF)
+        if not (line[0] == "kl" and line[1][0] == "str" and line[2] == ["cho", [["set", "\n\r"], ["eof"]]]):
+            raise Shape("HangingString at %s wraps %s, not  String << (EOL | EOF)" % (path or "top", " ".join(tokens(line))))
+        return ["hs", line[1][1], line[1][2], line[1][3]]
+    if t in (EnclosedComment, OneLineComment, EmptyQuotedString):      # process() hands over to the one child
+        return ["wrap", sub(0)]
     raise Untranslatable("parser class %s" % t.__name__)
 
 
 ARITY.update({AnyCharCls: 0, EOFCls: 0, Char: 0, InSet: 0, String: 0, Literal: 0, Many: 1, Until: 2, Opt: 1, FollowedBy: 2,
               NotFollowedBy: 2, KeepLeft: 2, KeepRight: 2, Map: 1, Wrapper: 1, StartTagName: 1, EndTagName: 1})
+for _c in (PosMarker, EnclosedComment, OneLineComment, EmptyQuotedString, WithIndent, HangingString):
+    if _c is not None:
+        ARITY[_c] = 1
 
 
 def forward_body(f, fwd_ids, i):
@@ -630,8 +743,10 @@ def tokens(t):
         for c in t[2]:
             out += tokens(c)
         return out
-    if k in ("wrap", "stag"):
+    if k in ("wrap", "stag", "pm", "wi"):
         return [k] + tokens(t[1])
+    if k == "hs":
+        return ["hs", enc(t[1]), enc(t[2]), str(t[3])]
     if k == "ref":
         return ["ref", str(t[1])]
     if k == "etag":
@@ -652,7 +767,7 @@ def kinds(t, acc):
 
 
 KINDS = {"any", "eof", "chr", "set", "str", "lit", "seq", "cho", "many", "until", "opt", "fb", "nfb", "kl", "kr",
-         "map", "lift", "wrap", "ref", "stag", "etag"}
+         "map", "lift", "wrap", "ref", "stag", "etag", "pm", "wi", "hs"}
 
 
 # --------------------------------------------------------------------------- the reference: textbook PEG with values
@@ -688,6 +803,17 @@ def apply_fn(tok, v):
         if isinstance(v, list) and len(v) == 2 and isinstance(v[1], list):
             return ("ok", ([] if v[0] is NO_MATCH else [v[0]]) + v[1])
         return "raise"
+    if k == "skipnone":                  # the entries that are not None, in order; iterating a str gives its characters
+        if isinstance(v, (list, str)):
+            return ("ok", [x for x in v if x is not None])
+        return "raise"
+    if k == "mknum":                     # the number a literal  -?digits(.digits)?  denotes
+        try:
+            sign, ip, frac = v
+            text = sign + ip + ("".join(frac) if frac else "")
+            return ("ok", float(text) if "." in text else int(text))
+        except Exception:
+            return "raise"
     raise ValueError(k)
 
 
@@ -726,6 +852,7 @@ class Ref(object):
         self.rules, self.s, self.leaky, self.swallow = rules, s, leaky, swallow
         self.global_tags = []
         self.ferr = False
+        self.indents = []          # dynamically scoped: WithIndent pushes for the extent of its child only
 
     def ev(self, t, i, tags):
         """-> (j, value, tags') or FAIL"""
@@ -830,8 +957,47 @@ class Ref(object):
             return self.act(t[1], r[1], r[0], r[2])
         if k == "wrap":
             return self.ev(t[1], i, tags)
+        if k == "pm":                          # the value with line / column (1-based) of the position it starts at
+            r = self.ev(t[1], i, tags)
+            if r is FAIL:
+                return FAIL
+            before = s[:i]
+            return (r[0], RMark(before.count("\n") + 1, len(before) - (before.rfind("\n") + 1) + 1, r[1]), r[2])
         if k == "ref":
             return self.ev(self.rules[t[1]], i, tags) if t[1] < len(self.rules) else FAIL
+        if k == "wi":                          # skip white space, remember the column reached while the child runs
+            j = i
+            while j < len(s) and s[j] in _string.whitespace:
+                j += 1
+            self.indents.append(j - (s.rfind("\n", 0, j) + 1))
+            try:
+                return self.ev(t[1], j, tags)
+            finally:
+                self.indents.pop()
+        if k == "hs":
+            # a value line (String << (EOL | EOF)) and the following lines as long as they start right of the indent
+            # remembered by the innermost WithIndent; per line: text before the first '#', trailing blanks and
+            # backslashes removed; joined by one blank.  Always succeeds.  What is mirrored from the code rather
+            # than taken from a textbook: where it stops reading (after the white space that follows the last line it took
+            # when the next line does not match; before it when the next line is not indented enough)
+            line = ["kl", ["str", t[1], t[2], t[3]], ["cho", [["set", "\n\r"], ["eof"]]]]
+            pos, old, parts = i, i, []
+            while self.indents:
+                if pos - (s.rfind("\n", 0, pos) + 1) > self.indents[-1]:
+                    r = self.ev(line, pos, tags)
+                    if r is FAIL:
+                        break
+                    if r[0] == pos:
+                        raise Unproductive()
+                    pos = r[0]
+                    parts.append(r[1].split("#", 1)[0].rstrip(" \\"))
+                else:
+                    pos = old
+                    break
+                old = pos
+                while pos < len(s) and s[pos] in _string.whitespace:
+                    pos += 1
+            return (pos, " ".join(parts), tags)
         if k == "stag":
             r = self.ev(t[1], i, tags)
             if r is FAIL:
@@ -954,6 +1120,24 @@ def _run_impl(p, s):
             c = RecCtx.last
             call = "ferr" if (c is not None and c.function_error is not None) else "perr"
         cferr = RecCtx.last is not None and RecCtx.last.function_error is not None
+        # WithIndent's indent is dynamically scoped: whatever happened inside, nothing of it is left when the parse is over
+        # (a left-over entry is what a HangingString of a LATER alternative would measure its continuation lines against)
+        left = [getattr(ctx, "indents", None), getattr(RecCtx.last, "indents", None) if RecCtx.last is not None else []]
+        if any(x for x in left if x != []):
+            call = "%s [indent stack left behind: %r]" % (call, left)
+        if len(s) % 3 == 1:
+            # __call__ takes any iterable of characters (data = list(data)): a list, a tuple, a one-shot generator and the
+            # default Context must give what the str gave
+            for how, arg in (("list", list(s)), ("tuple", tuple(s)), ("generator", (ch for ch in s))):
+                try:
+                    other = "value " + canon(p(arg, src=None) if how == "list" else p(arg))
+                except Exception:
+                    other = "error"
+                if how == "list" and arg != list(s):
+                    other = "a changed caller's list %r" % (arg[:12],)
+                if (other == "error") != (not call.startswith("value")) or (other != "error" and other != call):
+                    call = "%s [but %s when the same characters are given as a %s]" % (call, other, how)
+                    break
     except Hang:
         return "hang", "hang", False
     finally:
@@ -966,6 +1150,7 @@ def _run_impl(p, s):
 # --------------------------------------------------------------------------- generator of grammars
 
 ALPHA = "abc"
+CONST_NAMES = sorted(CONST_TERMS)
 VALS = [None, 0, 1, "", "a", "ab", [], ["a"]]
 HITS = ["a", "b", "ab", ["a"], ["a", "b"], [], None, "", 1, 2, ["a", "a"]]
 
@@ -995,8 +1180,12 @@ def consuming(s, rules=None):
         return consuming(s[1]) or consuming(s[2])
     if k == "map":
         return consuming(s[2])
-    if k in ("wrap", "stag", "etag"):
+    if k in ("wrap", "stag", "etag", "pm", "dbg", "named", "wi"):
         return consuming(s[1])
+    if k == "hs":
+        return False
+    if k in ("const", "ecom", "olcom", "eqs"):
+        return consuming(spec_term(s))
     raise ValueError(k)
 
 
@@ -1006,9 +1195,11 @@ class Gen(object):
 
     def leaf(self):
         r = self.rng
+        if getattr(self, "lib", True) and r.random() < 0.12:
+            return self.lib_leaf()
         k = r.choice(["chr", "chr", "chr", "set", "any", "str", "lit", "lit", "eof"])
         if k == "chr":
-            return ["chr", r.choice(ALPHA)]
+            return ["chr", r.choice(ALPHA + "\n" if r.random() < 0.15 else ALPHA)]
         if k == "set":
             return ["set", "".join(sorted(set(r.choice(ALPHA) for _ in range(r.randint(1, 2)))))]
         if k == "str":
@@ -1020,6 +1211,22 @@ class Gen(object):
             return ["lit", chars, r.choice([None, None, [r.choice(VALS)]]), r.random() < 0.3]
         return [k]
 
+    def lib_leaf(self):
+        """the ready-made parsers of the library: module-level objects (shared by every grammar of the process) and the
+        derived classes EnclosedComment / OneLineComment / EmptyQuotedString"""
+        r = self.rng
+        k = r.choice(["const", "const", "const", "const", "ecom", "olcom", "eqs", "hs" if r.random() < 0.4 else "const"])
+        if k == "hs":
+            return ["hs", "".join(sorted(set(r.choice("abc #\\ ") for _ in range(r.randint(2, 5))))), r.choice(["", "", "a", "#"]),
+                    r.choice([1, 1, 1, 2])]
+        if k == "const":
+            return ["const", r.choice(CONST_NAMES)]
+        if k == "ecom":
+            return ["ecom", r.choice(["a", "ab", "#", "/*"]), r.choice(["b", "ba", "c", "*/", "a"])]
+        if k == "olcom":
+            return ["olcom", r.choice(["a", "#", "ab", "//"])]
+        return ["eqs", "".join(sorted(set(r.choice("abc'\"\\ ") for _ in range(r.randint(1, 4)))))]
+
     def consuming_term(self, d, guarded):
         for _ in range(20):
             t = self.term(d, guarded)
@@ -1029,7 +1236,7 @@ class Gen(object):
 
     def fn(self):
         r = self.rng
-        k = r.choice(["ident", "join", "join", "len", "const", "btif", "btif"] + (["raiseif"] if self.raises else []))
+        k = r.choice(["ident", "join", "join", "len", "const", "btif", "btif", "skipnone"] + (["raiseif"] if self.raises else []))
         if k == "const":
             return ["const", r.choice(VALS)]
         if k in ("btif", "raiseif"):
@@ -1061,7 +1268,24 @@ class Gen(object):
               "kl", "kr", "map", "map", "lift", "wrap", "sepby"]
         if self.tags:
             ks += ["stag", "stag", "etag", "etag", "tagpair"]
+        else:
+            # Mark objects compare by identity (EndTagName would compare two of them): PosMarker only in tag-free grammars
+            ks += ["pm", "pm", "dbg", "named", "wi"]
         k = r.choice(ks)
+        if k == "wi" and r.random() < 0.55:
+            k = "seq"
+        if k == "wi":
+            if r.random() < 0.6:         # the shape it is made for:  WithIndent(key + Opt(sep >> HangingString))
+                hs = ["hs", "".join(sorted(set("ab" + r.choice(["c", " ", "#", "\\", " #"])))), "", 1]
+                return ["wi", ["seq", [self.term(d - 2, guarded), ["opt", ["kr", ["chr", r.choice("=:c")], hs], None]], "list"]]
+            return ["wi", self.term(d - 1, guarded)]
+        if k == "pm":
+            return ["pm", self.term(d - 1, guarded)]
+        if k in ("dbg", "named"):
+            c = self.term(d - 1, guarded)
+            if c[0] in ("const", "any", "eof", "ref"):       # module-level singletons / Forwards are left as they are
+                return c
+            return ["dbg", c] if k == "dbg" else ["named", c, r.choice(["n", "a name", ""])]
         if k in ("seq", "lift"):
             n = r.choice([0, 1, 2, 2, 3, 3])
             kids, g = [], guarded
@@ -1072,6 +1296,9 @@ class Gen(object):
             if k == "seq":
                 return ["seq", kids, r.choice(["+", "+", "list"] + LIST_STYLES[1:] if r.random() < 0.6 else ["+", "list"])]
             l = ["lift", r.choice([["pair"], ["pair"], self.fn()]), kids]
+            if l[1][0] in ("btif", "raiseif") and r.random() < 0.6:
+                # a lifted function sees the LIST of its arguments: aim the trigger at a list of that length
+                l[1] = [l[1][0], [r.choice(ALPHA) for _ in kids]]
             return l + [r.choice(SET_STYLES)] if r.random() < 0.2 else l
         if k == "cho":
             return ["cho", [self.term(d - 1, guarded) for _ in range(r.choice([0, 1, 2, 2, 3]))],
@@ -1142,8 +1369,17 @@ def sample_input(rng, t, rules, depth=0):
         return sample_input(rng, t[1], rules, depth + 1)
     if k == "map":
         return sample_input(rng, t[2], rules, depth + 1)
-    if k in ("wrap", "stag", "etag"):
+    if k in ("wrap", "stag", "etag", "pm"):
         return sample_input(rng, t[1], rules, depth + 1)
+    if k == "wi":
+        return rng.choice(["", "", " ", "  ", "\n "]) + sample_input(rng, t[1], rules, depth + 1)
+    if k == "hs":
+        def ln():
+            return "".join(rng.choice(t[1]) for _ in range(rng.randint(max(t[3], 1), 3))) if t[1] else ""
+        out = ln()
+        for _ in range(rng.choice([0, 0, 1, 1, 2])):
+            out += rng.choice(["\n", "\n", "\r", "\n\n"]) + rng.choice(["", " ", "  ", "   "]) + ln()
+        return out + rng.choice(["", "\n", "\n "])
     if k == "ref":
         return sample_input(rng, rules[t[1]], rules, depth + 3) if t[1] < len(rules) else ""
     raise ValueError(k)
@@ -1156,7 +1392,7 @@ def gen_grammar(rng, depth):
     out = {"rules": rules, "top": g.term(depth, False)}
     if nrules and rng.random() < 0.4:
         out["fwd_styles"] = [rng.choice(["<="] + SET_STYLES) for _ in range(nrules)]
-    if rng.random() < 0.3:
+    if rng.random() < 0.3 and not re.search(r'"(wi|hs)"', json.dumps(out)):
         h = plan_history(rng, out)
         if h is not None:
             g2 = grammar_after(out, h)
@@ -1179,7 +1415,10 @@ def gen_inputs(rng, term, rules, n):
                 s = rng.choice([s[:i] + s[i + 1:], s[:i] + rng.choice(ALPHA) + s[i:], s + rng.choice(ALPHA + "B\\"), s[:i]])
         else:
             s = "".join(rng.choice(ALPHA + "aabB\\") for _ in range(rng.randint(0, 6)))
-        out.add(s[:10])
+        if rng.random() < 0.2:
+            i = rng.randrange(len(s) + 1)
+            s = s[:i] + rng.choice(["\n", "\n", " ", "\n\n", "\r", "1", "'", '"', "#"]) + s[i:]
+        out.add(s[:16] if ("\n" in s or " " in s) else s[:10])
     return sorted(out)
 
 
@@ -1237,8 +1476,15 @@ def check_grammar(chk, g, inputs, cases, impl_lines, model_lines):
     tagged = has_tags(term, rules)
     ks = set()
     kinds(term, ks)
+    for r_ in rules:
+        kinds(r_, ks)
     for k in ks:
         chk.count("node:" + k)
+    # WithIndent / HangingString (the indent stack) are not in the Lean model: such grammars are held to the reference only
+    oracle_only = bool(ks & {"wi", "hs"})
+    if oracle_only:
+        chk.count("grammar:indent-stack(reference only)")
+        cases, impl_lines, model_lines = [], [], []
     for n_before, s in enumerate(inputs):
         line, summary, cferr = run_impl(top, s)
         # history: the inputs the SAME objects parsed before this one (a replay re-runs them first)
@@ -1554,6 +1800,7 @@ class OpGen(object):
     def __init__(self, rng):
         self.rng = rng
         g = Gen(rng, 0, tags=False, raises=False)
+        g.lib = False       # the module-level parsers are shared by the whole process: `Number * x` would extend the library's own Lift
         self.leaves = []
         for _ in range(rng.randint(3, 5)):
             for _ in range(30):
@@ -1977,6 +2224,150 @@ def operators_stream(chk, n_exprs, n_inputs):
 
 # --------------------------------------------------------------------------- witnesses
 
+# --------------------------------------------------------------------------- INI documents (insights/parsr/iniparser.py)
+# the real user of PosMarker / WithIndent / HangingString / OneLineComment / skip_none: generated documents in a sub-language
+# whose meaning needs no grammar (keys start in column 0, continuation lines are indented, comments are whole lines or follow
+# ' #'), read line by line by `ini_reference` and by iniparser.parse_doc; compared: sections, keys, values and LINE NUMBERS.
+
+INI_WORDS = ["a", "b1", "key", "name", "x.y", "long_key", "k-2", "Key", "url", "path", "opt 1"]
+INI_VALS = ["v", "1", "val one", "/usr/bin", "a=b", "x:y", "10.0.0.1", "p q  r", "[x", "yesterday", "nope", "0", "a;b"]
+INI_BOOL = {"yes": True, "no": False, "true": True, "false": False}
+# outside the sub-language (suspected defect, not part of C19's statement): a value that BEGINS with a boolean word followed by
+# a blank — `key = yes please` is read as key = True plus a directive `please`, since Boolean is (Yes|No|Tru|Fals) & (WSChar | LineEnd)
+
+
+def gen_ini(rng):
+    lines, n_sec = [], rng.randint(1, 4)
+    for _ in range(rng.choice([0, 0, 1, 2])):
+        lines.append(rng.choice(["# top comment", "; semi", "", "  # indented comment"]))
+    for si in range(n_sec):
+        name = "DEFAULT" if rng.random() < 0.15 else rng.choice(["main", "sec 2", "s%d" % si, "a.b", "Sec-%d" % si, "x"])
+        lines.append(rng.choice(["[%s]", "[%s]", "[ %s ]", "[%s]  ", " [%s]"]) % name)
+        for _ in range(rng.choice([0, 1, 2, 2, 3, 4])):
+            m = rng.random()
+            key = rng.choice(INI_WORDS)
+            sep = rng.choice([" = ", "=", ": ", ":", " =  ", "\t=\t"])
+            if m < 0.1:
+                lines.append(rng.choice(["# note", "; note = 1", ""]))
+            elif m < 0.2:
+                lines.append(key)                                      # a key without a value
+            elif m < 0.3:
+                w = rng.choice(sorted(INI_BOOL))
+                lines.append(key + sep + rng.choice([w, w.upper(), w.capitalize()]) + rng.choice(["", " ", "\t"]))
+            elif m < 0.37:
+                lines.append(key + rng.choice([" =", "=", ":"]))      # an empty value (the next line is not indented)
+                lines.append(rng.choice(["# after empty", "z = 1"]))
+            else:
+                lines.append(key + sep + rng.choice(INI_VALS) + rng.choice(["", "", " # inline", "  ", " \\"]))
+                for _ in range(rng.choice([0, 0, 0, 1, 2])):
+                    lines.append(rng.choice([" ", "  ", "\t", "    "]) + rng.choice(INI_VALS + ["k = v", "# c"]) + rng.choice(["", " \\", " # x"]))
+                if rng.random() < 0.15:
+                    lines.append("")
+    return "\n".join(lines) + rng.choice(["\n", "", "\n\n", "\n  "])
+
+
+def ini_reference(text, return_defaults=False, return_booleans=True):
+    """[(section, line, [(key, [value]|[], line)])], read line by line; None = not in the sub-language"""
+    def clean(x):
+        return x.split("#", 1)[0].rstrip(" \\")
+    secs, cur, last = [], None, None
+    for no, raw in enumerate(text.split("\n"), 1):
+        ln = raw.strip()
+        if not ln:
+            last = None if not raw.strip() and cur is None else last
+            continue
+        if raw[0] in " \t" and last is not None and last[1]:
+            last[1][0] = last[1][0] + " " + clean(raw.lstrip())      # a continuation line of the last value
+            continue
+        if ln[0] in "#;":
+            last = None                      # a comment line in column 0 ends the value above it
+            continue
+        if ln[0] == "[":
+            if not ln.endswith("]"):
+                return None
+            cur = [ln[1:-1].strip(), no, []]
+            secs.append(cur)
+            last = None
+            continue
+        if cur is None or raw[0] in " \t":
+            return None
+        i = min([j for j in (ln.find("="), ln.find(":")) if j >= 0] or [-1])
+        if i < 0:
+            last = [ln, [], no]
+        else:
+            val = raw.lstrip()[i + 1:].lstrip()          # trailing tabs stay: only blanks and backslashes are removed
+            if return_booleans and val.rstrip(" \t").lower() in INI_BOOL:
+                last = [ln[:i].strip(), [INI_BOOL[val.rstrip(" \t").lower()]], no]
+                cur[2].append(last)
+                last = None
+                continue
+            last = [ln[:i].strip(), [clean(val)], no]
+        cur[2].append(last)
+    out = [[n, l, [tuple([k, list(v), kl]) for k, v, kl in ds]] for n, l, ds in secs]
+    if any(n == "DEFAULT" for n, _, _ in out):
+        dflt = [d for n, _, ds in out if n == "DEFAULT" for d in ds]
+        for sec in out:
+            if sec[0] != "DEFAULT":
+                for d in dflt:
+                    if d[0] not in [k for k, _, _ in sec[2]]:
+                        sec[2].append(d)
+        if not return_defaults:
+            out = [sec for sec in out if sec[0] != "DEFAULT"]
+    return out
+
+
+def ini_impl(text, **kw):
+    from insights.parsr import iniparser
+    try:
+        res = iniparser.parse_doc(text, None, **kw)
+    except Exception as e:
+        return "raised %s" % type(e).__name__
+    try:
+        return [[sec.name, sec.lineno, [(d.name, list(d.attrs), d.lineno) for d in sec.children]] for sec in res.children]
+    except Exception as e:
+        return "result of unexpected shape (%s: %s)" % (type(e).__name__, str(e)[:80])
+
+
+def ini_case(chk, text, kw):
+    want = ini_reference(text, **kw)
+    if want is None:
+        chk.count("ini:outside-sub-language")
+        return 0
+    got = ini_impl(text, **kw)
+    chk.case(("ini", text, tuple(sorted(kw.items()))), bool(want))
+    if got != want:
+        chk.count("ini:DIFFERS")
+        chk.failure("iniparser.parse_doc(%s) gives %s, the document read line by line is %s" % (
+            ", ".join("%s=%r" % kv for kv in sorted(kw.items())) or "defaults", str(got)[:400], str(want)[:400]),
+            {"kind": "ini", "text": text, "kw": kw})
+        return 0
+    chk.count("ini:agree")
+    return 1
+
+
+def ini_stream(chk, n):
+    rng = chk.rng
+    ok = 0
+    fixed = ["", "\n", "# only a comment\n", "[s]", "[s]\nk = v", "[s]\nk = v\n  more\n\n  tail\nj = 2\n",
+             "[a]\nflag = yes\nword = yesterday\n", "[DEFAULT]\nd = 1\n[a]\nd = 2\n[b]\n", "[a]\nk = v \\\n  w\n"]
+    for i in range(n + len(fixed)):
+        text = fixed[i] if i < len(fixed) else gen_ini(rng)
+        kw = rng.choice([{}, {}, {}, {"return_defaults": True}, {"return_booleans": False},
+                         {"return_defaults": True, "return_booleans": False}])
+        ok += ini_case(chk, text, kw)
+        if i == len(fixed) + 2:
+            chk.sample({"ini": text, "options": kw, "parse_doc": str(ini_impl(text, **kw))[:300]})
+        if rng.random() < 0.08:
+            # a key before the first section is not a document
+            bad = "k = v\n" + text
+            got = ini_impl(bad)
+            chk.count("ini:rejects-key-before-section" if isinstance(got, str) and got.startswith("raised") else "ini:ACCEPTS-key-before-section")
+            if not (isinstance(got, str) and got.startswith("raised")):
+                chk.failure("iniparser.parse_doc accepts a key before the first section header: %s" % str(got)[:200],
+                            {"kind": "ini", "text": bad, "kw": {}, "expect": "error"})
+    chk.stream("ini-vs-line-reference", ok, 0)
+
+
 TAG_WITNESS = {"rules": [], "top": ["seq", [["stag", ["chr", "b"]],
                                            ["opt", ["seq", [["stag", ["chr", "a"]], ["chr", "x"]], "list"], None],
                                            ["chr", "a"], ["etag", ["chr", "b"], False]], "list"]}
@@ -1996,6 +2387,33 @@ def witnesses(chk):
         chk.witnesses.append({"finding": fid, "inputs": docs, "reproduced": hit})
         if hit:
             chk.finding_reproduced(fid)
+    # json-deep-nesting: a document of the documented subset (arrays of integers) nested 100 deep is accepted by json.loads and
+    # by the translated grammar in the model (Props.C19.json_deep_nesting_witness), and rejected by the real grammar: the
+    # recursion limit is hit inside the combinators and the RecursionError is swallowed as if it were a failed alternative
+    try:
+        deep = json.load(open(os.path.join(VERIF, "corpus", "C19", "json_deep_nesting.json")))["doc"]
+        a_, b_ = json_impl(deep, record=False), json_ref(deep)
+        m_ = run_driver("C19", ["json\t" + enc(deep)])[0]
+        hit = a_[0] == "error" and b_[0] == "ok" and m_.startswith("value")
+        chk.witnesses.append({"finding": "json-deep-nesting", "input": "'['*100 + '1' + ']'*100", "grammar": a_[0],
+                              "json.loads": b_[0], "model": m_[:12], "reproduced": hit})
+        if hit:
+            chk.finding_reproduced("json-deep-nesting")
+        elif not (a_[0] == "ok" and b_[0] == "ok" and same_json(a_[1], b_[1]) and m_.startswith("value")):
+            chk.failure("the deeply nested document: grammar %s, json.loads %s, model %s" % (a_[0], b_[0], m_[:40]),
+                        {"kind": "json", "doc": deep})
+    except RecursionError:
+        chk.failure("the JSON grammar let a RecursionError escape on the deeply nested document", {"kind": "json", "doc": "[" * 100 + "1" + "]" * 100})
+    # the module's own entry points: loads / load
+    import io
+    for doc in ['{"a": [1, 2.5, "x"], "b": {"c": null}}', "[true, false]", " 7 "]:
+        try:
+            want = json.loads(doc)
+            got1, got2 = json_parser.loads(doc), json_parser.load(io.StringIO(doc))
+            if not (same_json(got1, want) and same_json(got2, want)):
+                chk.failure("json_parser.loads / load give %r / %r, json.loads gives %r" % (got1, got2, want), {"kind": "json", "doc": doc})
+        except Exception as e:
+            chk.failure("json_parser.loads / load raised %s: %s" % (type(e).__name__, str(e)[:120]), {"kind": "json", "doc": doc})
     try:
         p1, _ = build_grammar(TAG_WITNESS)
         p2, _ = build_grammar(TAG_CONTROL)
@@ -2022,7 +2440,7 @@ def witnesses(chk):
 def run(chk):
     rng = chk.rng
     quick = chk.tier == "quick"
-    n_grammars = 3000 if quick else 30000
+    n_grammars = 3400 if quick else 34000
     n_inputs = 14 if quick else 30
     n_json = 3000 if quick else 60000
     n_tag = 1500 if quick else 20000
@@ -2050,7 +2468,17 @@ def run(chk):
         "mapped functions are entries of a fixed table (identity, join, len, constant, backtrack-if, raise-if, "
         "sep_by's _accumulate); the theorems hold for every table",
         "str.lower() is modelled on ASCII only (Literal ignore_case / EndTagName ignore_case); inputs are ASCII",
-        "ctx.pos/errors/parser_stack (error text), PosMarker, WithIndent/HangingString (indent stack) are not modelled",
+        "ctx.pos/errors/parser_stack (the error text, the farthest-failure heuristic) are not modelled; PosMarker and Context.line/col "
+        "ARE (Term.mark, lineOf/colOf; generated only in grammars without Start/EndTagName because Mark objects compare by identity); "
+        "WithIndent/HangingString (indent stack) are not in the Lean model: grammars containing them (about 8%) are held to the "
+        "reference evaluator only, whose account of WHERE HangingString stops reading restates the code; HangingString(min_length=0) "
+        "is not generated (it loops at the end of the input: a repetition over a non-consuming body)",
+        "the ready-made parsers of the library (28 module-level objects, EnclosedComment, OneLineComment, EmptyQuotedString) are leaves "
+        "of the random grammars; their documented meaning is the table CONST_TERMS / spec_term written from the `string` module, "
+        "and the live objects must read back as exactly these terms",
+        "INI documents: a sub-language that can be read line by line (keys in column 0, indented continuation lines, values not "
+        "starting with a boolean word followed by a blank); iniparser.parse_doc must agree with the line-by-line reading in sections, "
+        "keys, values and line numbers",
         "termination: every generated grammar is checked WellFormed by the model (driver field wf=1) and every model run "
         "uses the fuel `bound rules term |input|` that Props.C19.no_divergence proves sufficient; a fuel-exhausted answer "
         "would show up as model:fuel-exhausted and as a correspondence mismatch",
@@ -2086,7 +2514,7 @@ def run(chk):
         if bad_wf:
             chk.tie_broken("generator-discipline", "%d generated grammars are not WellFormed in the model" % len(bad_wf),
                            {"kind": "term", "grammar": bad_wf[0]["grammar"], "input": bad_wf[0]["input"]})
-        model = [m.rsplit("|wf=", 1)[0] for m in model]
+        model = [defloat(m) if "F" in m else m for m in (m.rsplit("|wf=", 1)[0] for m in model)]
         n_div = sum(1 for m in model if m.startswith("diverge"))
         if n_div:
             chk.count("model:fuel-exhausted", n_div)
@@ -2121,6 +2549,9 @@ def run(chk):
 
     # ---- stream 1b: the grammar-building operators, every grouping (Props.C19 plus_* / alt_* theorems)
     operators_stream(chk, 1000 if quick else 15000, 6 if quick else 10)
+
+    # ---- stream 1c: the INI grammar (PosMarker / WithIndent / HangingString / OneLineComment / skip_none in their real user)
+    ini_stream(chk, 500 if quick else 8000)
 
     # ---- stream 2: JSON grammar vs json.loads on the documented subset  (+ the TRANSLATED grammar in the model)
     jdocs = []
@@ -2173,6 +2604,23 @@ def run(chk):
     for r in real:
         chk.count("taglang-translated:" + ("bits" if r[0] in "01" else r))
     chk.compare("taglang-translated-vs-real", [{"kind": "taglang-text", "text": t} for t, _ in texts], real, model)
+
+    # ---- the module-level parsers were shared by everything above (every grammar that used them, the JSON and the INI
+    # grammar): after all that they must still denote their documented terms (nothing accumulated onto them)
+    for name in CONST_NAMES:
+        rb, want = const_readback(name)
+        chk.count("library-constant:" + ("unchanged" if rb == want else "CHANGED"))
+        if rb != want:
+            chk.failure("after the run insights.parsr.%s reads back as  %s  — documented:  %s" % (name, rb, want),
+                        {"kind": "const", "name": name})
+
+
+def const_readback(name):
+    want = " ".join(tokens(CONST_TERMS[name]))
+    try:
+        return " ".join(tokens(walk(getattr(P, name), {}))), want
+    except Exception as e:
+        return "unreadable (%s: %s)" % (type(e).__name__, str(e)[:120]), want
 
 
 JSON_EXTRA = ["[0, 1]", "[null]", "[false]", "[,1]", '{,"a":1}', "01", "[007]", "[ ]", "{ }", '{"a" :1}', '""', "'a b'",
@@ -2244,6 +2692,7 @@ def replay(data):
         if ml:
             for cse, i_line, m in zip(cs, il, run_driver("C19", ml)):
                 m = m.rsplit("|wf=", 1)[0]
+                m = defloat(m) if "F" in m else m
                 print("input %r" % cse["input"])
                 print("  implementation:", i_line)
                 print("  model         :", m, "" if m == i_line else "  <-- DISAGREE")
@@ -2252,6 +2701,7 @@ def replay(data):
             print(d)
         bad = bad or bool(cc.failures)
     elif kind == "operators":
+        cc = _Rec()
         cs, il, ml = [], [], []
         op_case(cc, c["expr"], c["leaves"], 0, cs, il, ml, inputs=list(c.get("history", [])) + [c["input"]], shared=c.get("shared", []))
         if ml:
@@ -2274,6 +2724,18 @@ def replay(data):
         print("translated grammar in the model:", model, "" if real == model else "  <-- DISAGREE")
         in_subset = "'" not in c["doc"] and "\\" not in c["doc"] and '""' not in c["doc"] and not RE_CTRL_IN_STRING(c["doc"])
         bad = in_subset and not (a[0] == b[0] and (a[0] == "error" or same_json(a[1], b[1])))
+    elif kind == "const":
+        rb, want = const_readback(c["name"])
+        print("insights.parsr.%s reads back as: %s" % (c["name"], rb))
+        print("documented                    : %s" % want)
+        bad = rb != want
+    elif kind == "ini":
+        kw = c.get("kw") or {}
+        got = ini_impl(c["text"], **kw)
+        want = "an error" if c.get("expect") == "error" else ini_reference(c["text"], **kw)
+        print("iniparser.parse_doc:", got)
+        print("line by line       :", want)
+        bad = (not (isinstance(got, str) and got.startswith("raised"))) if c.get("expect") == "error" else got != want
     elif kind == "taglang-text":
         sets = list(tagsets())
         sets_field = ",".join("+".join(enc(t) for t in ts) if ts else "_" for ts in sets)
